@@ -1287,7 +1287,12 @@ class Engine:
                     return r
         for rx, fnc in self.contracts:
             if rx.search(callee):
-                r = fnc(ctx)
+                try:
+                    r = fnc(ctx)
+                except (AttributeError, KeyError, TypeError, IndexError) as e:
+                    # a contract met a value shape it does not model: fall back to havoc (never crash the check)
+                    self.stats['unsupported'].append('contract %s on unexpected value (%s: %s)' % (fnc.__name__, type(e).__name__, str(e)[:60]))
+                    r = NotImplemented
                 if r is not NotImplemented:
                     self.stats['contracts_used'][fnc.__name__] = self.stats['contracts_used'].get(fnc.__name__, 0) + 1
                     if isinstance(r, Push):
@@ -1308,7 +1313,9 @@ class Engine:
         sc = short_callee(ctx.callee)
         self.stats['havoc_calls'][sc] = self.stats['havoc_calls'].get(sc, 0) + 1
         st = ctx.st
-        st.env['havoc'] = st.env.get('havoc', ()) + (sc,)
+        bh = getattr(self, 'benign_havoc', None)
+        if not (bh is not None and bh.search(sc)):
+            st.env['havoc'] = st.env.get('havoc', ()) + (sc,)
         # havoc places reachable through &mut arguments (one level)
         for a in ctx.args:
             if isinstance(a, Ref) and a.mut:
@@ -1392,6 +1399,25 @@ class Engine:
         st.mem.update(rets[0].mem)
         st.pc = rets[0].pc
         return rets[0].ret
+
+    def call_sub_merge(self, st, fn, args):
+        """run a side-effect free repo function that may fork; returns its Bool result as one term
+        (disjunction over the paths that return true) or None"""
+        sub = st.fork()
+        sub.frames = []
+        base = len(sub.pc)
+        self.push_frame(sub, fn, args, None, None)
+        saved_paths = self.stats['paths']
+        finals = self.run(sub)
+        self.stats['paths'] = saved_paths
+        terms = []
+        for f in finals:
+            if f.status != 'returned' or not isinstance(f.ret, Bool):
+                return None
+            terms.append(z3.And(list(f.pc[base:]) + [f.ret.t]))
+        if not terms:
+            return None
+        return Bool(simp(z3.Or(terms)))
 
     def call_fn(self, st, fn, args, tybind=None):
         """set up st to run fn(args) as the bottom frame and run to completion"""
